@@ -2553,30 +2553,16 @@ where
 
     /// Get all keys from LOUDS trie storage
     fn keys_louds_actual(label_data: &FastVec<u8>) -> Vec<Vec<u8>> {
+        // Records are [len_byte][key_bytes...] (see insert_louds)
         let mut keys = Vec::new();
-
-        if label_data.is_empty() {
-            return keys;
-        }
-
-        let mut current_key = Vec::new();
-
-        for &byte in label_data.iter() {
-            if byte == 0u8 {
-                // Found separator, this completes a key
-                if !current_key.is_empty() {
-                    keys.push(current_key.clone());
-                    current_key.clear();
-                }
-            } else {
-                // Add byte to current key
-                current_key.push(byte);
+        let mut pos = 0;
+        while pos < label_data.len() {
+            let len = label_data[pos] as usize;
+            if pos + 1 + len > label_data.len() {
+                break; // truncated record
             }
-        }
-
-        // Handle last key if there's no trailing separator
-        if !current_key.is_empty() {
-            keys.push(current_key);
+            keys.push((pos + 1..pos + 1 + len).map(|i| label_data[i]).collect());
+            pos += 1 + len;
         }
 
         // Remove duplicates and sort
